@@ -338,6 +338,7 @@ func TestInterleavedSessions(t *testing.T) {
 		runtime.GC()
 	}()
 	hx.Check(t, 16, func(t *rapid.T) {
+		tcpCaseStart()
 		tps := drawTemplates(t, 3, false)
 		n := rapid.IntRange(2, 6).Draw(t, "sessions")
 		use := make([]int, n)
@@ -476,6 +477,7 @@ func TestConcurrentSessions(t *testing.T) {
 	hx.Check(t, weight, func(t *rapid.T) {
 		caseIdx++
 		procs := rapid.SampledFrom([]int{2, 4, 16}).Draw(t, "gomaxprocs")
+		tcpCaseStart()
 		tps := drawTemplates(t, 6, true)
 		n := rapid.IntRange(50, 500).Draw(t, "sessions")
 		mix := rapid.SliceOfN(rapid.IntRange(0, len(tps)-1), 1, 12).Draw(t, "mix")
